@@ -80,6 +80,28 @@ fn first_error_cases(rng: &mut Rng, tier: Tier, out: &mut Vec<Case>) {
             }
         }
     }
+    // has() and selection over paths of one to three fields, every field present or absent, the
+    // root a map, an empty map, a non-map or an undeclared name: an absent *intermediate* field is
+    // the error of the selection that reaches it; only the last field is tested for presence
+    {
+        let leaf = |k: &str, v: Value| -> Value { Value::Map(cel_interpreter::objects::Map { map: std::sync::Arc::new(std::collections::HashMap::from([(cel_interpreter::objects::Key::String(std::sync::Arc::new(k.to_string())), v)])) }) };
+        let mut spec = spec.clone();
+        spec.vars.push(("n".into(), leaf("a", leaf("b", leaf("c", Value::Int(0))))));
+        spec.vars.push(("e".into(), leaf("a", Value::Null)));
+        for root in ["n", "m", "e", "one", "nope_var", "{'a': {'b': {}}}", "[n, m][0]", "[n, m][1]"] {
+            for path in ["a", "x", "a.b", "a.x", "x.b", "a.b.c", "a.b.x", "a.x.c", "x.b.c", "a.b.c.d"] {
+                for src in [
+                    format!("has({root}.{path})"), format!("!has({root}.{path})"), format!("{root}.{path}"), format!("has({root}.a) && has({root}.{path})"), format!("has({root}.{path}) ? 1 : 2"),
+                    format!("[{root}].all(v, has(v.{path}))"), format!("has({root}.{path}) || true"), format!("[has({root}.{path}), 1 / zero]"),
+                ] {
+                    if let Some(mut case) = eval_case_from_src(&spec, &src) {
+                        case.tags = vec!["has-paths"];
+                        out.push(case);
+                    }
+                }
+            }
+        }
+    }
     // int / uint against doubles with a fraction, of either sign, next to the integer
     let ints = ["-2", "-1", "0", "1", "2", "0u", "1u", "2u", "imin", "big"];
     let dbls = ["-2.5", "-1.5", "-1.0", "-0.5", "-0.0", "0.0", "0.5", "1.0", "1.5", "2.5", "-9223372036854775808.5", "9223372036854775807.5"];
